@@ -63,8 +63,13 @@ impl<T: From<String>> syn::parse::Parse for Separatable<T> {
             serialize   = Some(l.value().into());
             deserialize = Some(l.value().into());
 
-        } else if input.peek(token::Brace) {
-            let b; syn::braced!(b in input);
+        } else if input.peek(token::Paren) || input.peek(token::Brace) {
+            let b;
+            if input.peek(token::Paren) {
+                syn::parenthesized!(b in input);
+            } else {
+                syn::braced!(b in input);
+            }
             while let Ok(i) = b.parse::<Ident>() {
                 let _ = b.parse::<token::Eq>()?;
                 let l = b.parse::<LitStr>()?;
